@@ -3,7 +3,7 @@
 # patch applies, demo passes without / fails with the change, the 679-test suite passes with it.
 set -u
 PID=$1; V=$2
-WT=/tmp/seed_$PID; OUT=/tmp/seed_${PID}_out/$V
+PFX=${SEED_PREFIX:-seed}; WT=/tmp/${PFX}_$PID; OUT=/tmp/${PFX}_${PID}_out/$V
 export CARGO_NET_OFFLINE=true
 cd $WT || exit 2
 git checkout -q -- . ; git clean -fdq tests src
@@ -14,11 +14,11 @@ case "$DEMO" in
   *.sh) RUN="bash $DEMO";;
   *.py) RUN="python3 $DEMO";;
 esac
-echo "== demo WITHOUT the change"; $RUN > /tmp/seed_${PID}_$V.base.log 2>&1; echo "exit $?"
+echo "== demo WITHOUT the change"; $RUN > /tmp/${PFX}_${PID}_$V.base.log 2>&1; echo "exit $?"
 git apply $OUT/patch.diff || { echo "PATCH DOES NOT APPLY"; exit 3; }
-echo "== demo WITH the change"; $RUN > /tmp/seed_${PID}_$V.mut.log 2>&1; echo "exit $?"
+echo "== demo WITH the change"; $RUN > /tmp/${PFX}_${PID}_$V.mut.log 2>&1; echo "exit $?"
 rm -f tests/seed_demo.rs
 rm -f tests/property_tests.proptest-regressions
 echo "== suite WITH the change (the two case-insensitive proptests of the repository are flaky on the unchanged code: known finding K3)"
-for try in 1 2 3; do cargo nextest run --workspace --no-fail-fast --test-threads 8 --offline > /tmp/seed_${PID}_$V.suite.log 2>&1; grep -E "Summary" /tmp/seed_${PID}_$V.suite.log; grep -E "^\s+FAIL" /tmp/seed_${PID}_$V.suite.log | sort -u | head -3; rm -f tests/property_tests.proptest-regressions; grep -q "679 passed" /tmp/seed_${PID}_$V.suite.log && break; done
+for try in 1 2 3; do cargo nextest run --workspace --no-fail-fast --test-threads 8 --offline > /tmp/${PFX}_${PID}_$V.suite.log 2>&1; grep -E "Summary" /tmp/${PFX}_${PID}_$V.suite.log; grep -E "^\s+FAIL" /tmp/${PFX}_${PID}_$V.suite.log | sort -u | head -3; rm -f tests/property_tests.proptest-regressions; grep -q "679 passed" /tmp/${PFX}_${PID}_$V.suite.log && break; done
 git checkout -q -- . ; git clean -fdq tests src
